@@ -1526,7 +1526,7 @@ def pretty_float(value, ctx):
     elif math.isnan(value):
         return pretty_call_alt(ctx, constructor, args=('nan', ))
 
-    doc = annotate(Token.NUMBER_FLOAT, repr(value))
+    doc = annotate(Token.NUMBER_FLOAT, float.__repr__(value))
     if constructor is float:
         return doc
 
@@ -1539,7 +1539,7 @@ def pretty_int(value, ctx):
     if ctx.depth_left == 0:
         return pretty_call_alt(ctx, constructor, args=(..., ))
 
-    doc = annotate(Token.NUMBER_INT, repr(value))
+    doc = annotate(Token.NUMBER_INT, int.__repr__(value))
     if constructor is int:
         return doc
 
@@ -1609,7 +1609,12 @@ def determine_quote_strategy(s):
 
 
 def escape_str_for_quote(use_quote, s):
-    escaped_with_quotes = repr(s)
+    # Subclasses may override __repr__; we want the plain literal.
+    escaped_with_quotes = (
+        str.__repr__(s)
+        if isinstance(s, str)
+        else bytes.__repr__(s)
+    )
     repr_used_quote = escaped_with_quotes[-1]
 
     # string may have a prefix
